@@ -146,9 +146,17 @@ EXC_POOL: Dict[str, Any] = {
     "Group2": lambda tok, value: ExceptionGroup(tok, [ValueError(tok, value), KeyError(tok)]),
     "GroupBase1": lambda tok, value: BaseExceptionGroup(tok, [KeyboardInterrupt(tok)]),
     "GroupNoResult": lambda tok, value: ExceptionGroup(tok, [NoResultError(tok)]),
+    # raise AppError(...) from low_level_error: the exception raised is the outer one
+    "Chained": lambda tok, value: _chained(tok, value),
     # what Context.reject() raises: an ordinary failure for the result and for the retry middleware
     "TaskRejectedError": lambda tok, value: _rejected(tok, value),
 }
+
+
+def _chained(tok: Any, value: Any) -> BaseException:
+    exc = CustomError(tok, value)
+    exc.__cause__ = KeyError("low-level cause", tok)
+    return exc
 
 
 def _rejected(tok: Any, value: Any) -> BaseException:
@@ -825,16 +833,20 @@ def build_functions(sc: Scenario, broker: AsyncBroker) -> None:
         echo = "_echo(ctx)" if ts.get("ctx") else "None"
         fn = "fn_" + tname
         a_kw = "(), {}" if strict else ("args, dict(kwargs, req=req)" if ts.get("model_param") else "args, kwargs")
+        ra = f" -> {ts['ret_ann']}" if ts.get("ret_ann") else ""  # a return annotation (documentation for callers)
+        if ra:
+            ns["List"] = List
+            ns["Dict"] = Dict
         if ts.get("fn", "async") == "async":
             pt = "pt" if ts.get("progress") else "None"
             cx = "ctx" if ts.get("ctx") else "None"
             src = (
-                f"async def {fn}({ps}):\n"
+                f"async def {fn}({ps}){ra}:\n"
                 f"    return await _run_beh(_sc, tok, {a_kw}, {depvals}, {echo}, {pt}, {cx})\n"
             )
         else:
             src = (
-                f"def {fn}({ps}):\n"
+                f"def {fn}({ps}){ra}:\n"
                 f"    return _run_beh_sync(_sc, tok, {a_kw}, {depvals}, {echo})\n"
             )
         if ts.get("asyncified") and ts.get("fn", "async") == "async":
@@ -897,6 +909,10 @@ def _outcome(sc: Scenario, d: Any, tok: str, beh: Dict[str, Any], depvals: Any, 
         sc.trace.add("task_end", d, how="return")
         if beh.get("ret_handle"):
             return _Handle(val)  # the function's return value is an object that happens to be awaitable (a handle, a future)
+        if "ret_raw" in beh:
+            # what the function returns is not of the type its annotation names (it is what it is)
+            rv = beh["ret_raw"]
+            return tuple(rv["__tuple__"]) if isinstance(rv, dict) and "__tuple__" in rv else rv
         if beh.get("ret_model"):
             # the function returns an object of the application's own (a pydantic model / a dataclass instance)
             return _ReqModel(name=tok) if beh["ret_model"] == "model" else _Unit(tok)
@@ -1187,7 +1203,9 @@ DEFAULT_TASKS = {"t_async": {"fn": "async"}, "t_sync": {"fn": "sync"}, "t_model"
                  "t_ctx": {"fn": "async", "ctx": True},
                  "t_asyncified": {"fn": "async", "asyncified": True},
                  "t_plain": {"fn": "async", "plain_param": True}, "t_plain_sync": {"fn": "sync", "plain_param": True},
-                 "t_annot": {"fn": "async", "annot_param": True}}
+                 "t_annot": {"fn": "async", "annot_param": True},
+                 "t_ret_int": {"fn": "async", "ret_ann": "int"}, "t_ret_list": {"fn": "sync", "ret_ann": "List[int]"},
+                 "t_ret_dict": {"fn": "async", "ret_ann": "Dict[str, int]"}}
 
 
 class RunResult:
